@@ -20,3 +20,4 @@ open Gossamer.C29
 #print axioms C29_host_sr1_ignores_signature
 #print axioms C29_host_sr2_nonzero
 #print axioms C29_host_recover_shape
+#print axioms C29_host_recover_badv
